@@ -21,13 +21,24 @@ use std::os::unix::ffi::OsStrExt;
 use std::panic::{catch_unwind, AssertUnwindSafe};
 use xor_name::XorName;
 
+/// ant-cli's `access/` modules, compiled in from /repo (main.rs re-exports them at the crate root in the same way)
 #[allow(dead_code)]
-mod keys {
-    /// shim of ant-cli's `access::keys::load_evm_wallet_from_env`: no wallet in the environment
-    pub fn load_evm_wallet_from_env() -> Result<autonomi::Wallet, ()> {
-        Err(())
-    }
+mod access {
+    #[path = "/repo/ant-cli/src/access/data_dir.rs"]
+    pub mod data_dir;
+    #[path = "/repo/ant-cli/src/access/keys.rs"]
+    pub mod keys;
+    #[path = "/repo/ant-cli/src/access/user_data.rs"]
+    pub mod user_data;
 }
+#[allow(unused_imports)]
+use access::{data_dir, keys, user_data};
+/// ant-cli's `wallet` sub-commands (commands/wallet.rs), compiled in from /repo
+#[allow(dead_code)]
+#[path = "/repo/ant-cli/src/commands/wallet.rs"]
+mod wallet_cmd;
+#[path = "cliparsers/extra.rs"]
+mod extra;
 #[allow(dead_code, unused_imports)]
 mod wallet {
     pub const DUMMY_NETWORK: autonomi::Network = autonomi::Network::ArbitrumSepolia;
@@ -46,6 +57,13 @@ mod wallet {
         pub fn get_password_input(_prompt: &str) -> String {
             PASSWORD.lock().map(|s| s.clone()).unwrap_or_default()
         }
+        pub fn request_password(_required: bool) -> Option<String> {
+            None
+        }
+    }
+    /// shim of `wallet::load_wallet_private_key` (env key, else interactive selection): nothing available
+    pub fn load_wallet_private_key() -> color_eyre::Result<String> {
+        Err(color_eyre::eyre::eyre!("no wallet in the harness"))
     }
     pub mod fs {
         include!("/repo/ant-cli/src/wallet/fs.rs");
@@ -188,7 +206,7 @@ fn exec_op(line: &str, tmp: &std::path::Path) -> (String, String) {
                 let Some(Ok(a)) = unhex(b).map(<[u8; 32]>::try_from) else { return "bad-op".into() };
                 hex(addr_to_str(XorName(a)).as_bytes())
             }
-            _ => "bad-op".into(),
+            other => extra::exec(other, tmp, &mut op).unwrap_or_else(|| "bad-op".into()),
         }
     }));
     (op, r.unwrap_or_else(|_| "panic".into()))
@@ -249,7 +267,7 @@ fn oracle(line: &str, res: &str, out: &mut Out, tmp: &std::path::Path) {
                 out.oracle_fail("roundtrip", line, &format!("str_to_addr(addr_to_str(x)) = {back}"));
             }
         }
-        _ => {}
+        other => extra::oracle(other, res, line, out),
     }
 }
 
@@ -317,7 +335,7 @@ fn main() {
     std::env::set_var("XDG_DATA_HOME", tmp.join("data"));
     // load_wallet_from_address `expect`s an EVM network from the environment (configuration, not stored text)
     std::env::set_var("EVM_NETWORK", "arbitrum-sepolia");
-    for k in ["RPC_URL", "PAYMENT_TOKEN_ADDRESS", "DATA_PAYMENTS_ADDRESS"] {
+    for k in ["RPC_URL", "PAYMENT_TOKEN_ADDRESS", "DATA_PAYMENTS_ADDRESS", "SECRET_KEY", "REGISTER_SIGNING_KEY"] {
         std::env::remove_var(k);
     }
     let lines: Vec<String> = if let Some(p) = &args.replay {
@@ -493,6 +511,7 @@ fn main() {
                 }
             }
         }
+        v.extend(extra::generate(&mut rng, args.n));
         v
     };
     for l in &lines {
